@@ -304,7 +304,8 @@ def run_case(case):
                 write(s[1], (a + b) * (c + s[5]))
             elif k == "abs":
                 a = store[tuple(s[2])]
-                if a < 0:
+                if a < 0 or a >= 1 << 31:
+                    # arithmetic on large / negative values is C01's subject
                     put(e, s[1], ref(e, s[2]))
                     write(s[1], a)
                     continue
